@@ -18,8 +18,11 @@ BitRev(k, j) == BitRevAux(k, j, 0)
 RECURSIVE V2(_)
 V2(x) == IF x % 2 = 1 THEN 0 ELSE 1 + V2(x \div 2)
 
-\* (a*b) mod M for a, b, M < 2^17 without exceeding 2^31
-MulMod(a, b, M) == (((a * (b \div 256)) % M) * 256 + a * (b % 256)) % M
+\* (a*b) mod M without exceeding 2^31: for a, b < M <= 2^17 in two pieces, for larger M (up to 2^29) by doubling
+RECURSIVE MulModR(_, _, _)
+MulModR(a, b, M) == IF b = 0 THEN 0 ELSE LET h == MulModR(a, b \div 2, M) IN (((2 * h) % M) + ((b % 2) * a)) % M
+MulMod(a, b, M) == IF M <= 131072 THEN (((a * (b \div 256)) % M) * 256 + a * (b % 256)) % M
+                   ELSE MulModR(a % M, b % M, M)
 
 Min2(a, b) == IF a < b THEN a ELSE b
 Max2(a, b) == IF a < b THEN b ELSE a
